@@ -37,12 +37,53 @@ SELECTORS = {"find", "rfind", "filter", "take_while", "skip_while", "max_by_key"
              "retain", "sort_by_key", "sort_by", "dedup_by_key"}
 
 
+# Set by the harness: the loaded Program, used to expand calls of workspace functions (inter-procedural summaries).
+PROGRAM = None
+_SUMMARY = {}
+_SUMMARY_STACK = []
+SUMMARY_DEPTH = 3
+
+
+def return_summary(path):
+    """Atoms the value returned by workspace function `path` may be computed from, other than its own parameters (the caller
+    already contributes the atoms of the arguments): fields read, literals, constructors, further calls — expanded through
+    workspace callees up to SUMMARY_DEPTH.  Over-approximation, memoised per function."""
+    if PROGRAM is None:
+        return frozenset()
+    if path in _SUMMARY:
+        return _SUMMARY[path]
+    f = PROGRAM.fns.get(path)
+    if f is None or f.derived or f.kind not in ("Fn", "AssocFn") or path in _SUMMARY_STACK or len(_SUMMARY_STACK) >= SUMMARY_DEPTH:
+        return frozenset()
+    _SUMMARY_STACK.append(path)
+    try:
+        pv = Prov(f)
+        pv.interproc = True
+        rets = [n["e"] for n in f.walk() if n.get("k") == "Ret" and "e" in n]
+        body = f.body
+        if body.get("k") == "BlockExpr":
+            if "tail" in body["b"]:
+                rets.append(body["b"]["tail"])
+        else:
+            rets.append(body)
+        out = set()
+        for e in rets:
+            out |= pv.atoms(e)
+        res = frozenset(a for a in out if a[0] != "param")
+    finally:
+        _SUMMARY_STACK.pop()
+    if not _SUMMARY_STACK:
+        _SUMMARY[path] = res
+    return res
+
+
 class Prov:
     def __init__(self, fn, field_assign=True):
         """field_assign: treat `x.f = e` as making the whole local `x` depend on e (coarse but never misses a
         dependency); switch off when `x` is `self` and per-field precision matters"""
         self.field_assign = field_assign
         self.data_only = False
+        self.interproc = False
         self.fn = fn
         self.src = {}      # local id -> list of (source expr node | None, extra atoms)
         self.params = {}   # local id -> name
@@ -122,6 +163,10 @@ class Prov:
                     self._bind(arm["pat"], n["scrut"])
             elif k in ("MethodCall", "Call"):
                 args = ([n["recv"]] if k == "MethodCall" else []) + n["args"]
+                if "inl" in n:
+                    # virtually inlined callee (templates.inlined): its parameters are bound to this call's arguments
+                    for pp, aa in zip(n["inl"]["params"], args):
+                        self._bind(pp, aa)
                 closures = [a for a in args if a.get("k") == "Closure"]
                 if closures:
                     others = [a for a in args if a.get("k") != "Closure"]
@@ -153,6 +198,17 @@ class Prov:
             return self.atoms(e)
         finally:
             self.data_only, self._memo = old, memo
+
+    def deep_atoms(self, e):
+        """atoms(), plus — for every call of a workspace function — what that function's return value is computed from
+        (return_summary).  Use it for *positive* requirements ("derives from field F", "passes through sanitiser S") so that
+        moving part of an expression into a helper function does not lose the dependency; never for "must not depend on"."""
+        old, memo = self.interproc, self._memo
+        self.interproc, self._memo = True, {}
+        try:
+            return self.atoms(e)
+        finally:
+            self.interproc, self._memo = old, memo
 
     def atoms(self, e, _visiting=None):
         if e is None:
@@ -198,6 +254,8 @@ class Prov:
                     out.add(("call", c))
                     if n.get("callee") and norm(n["callee"]) != c:
                         out.add(("call", norm(n["callee"])))
+                    if self.interproc and PROGRAM is not None and c in PROGRAM.fns and c != self.fn.path:
+                        out |= return_summary(c)
                 if self.data_only and k == "MethodCall" and n.get("method") in SELECTORS:
                     # the result is an element (or sub-sequence) of the receiver; the predicate only selects
                     stack.append(n["recv"])
